@@ -344,9 +344,19 @@ func ruleC02Decode(c *Ctx) {
 			bi := paramIndexByType(fn, "[]byte")
 			for _, s := range sites {
 				r := s.(*ssa.Return)
+				// the majority verdict travels in the byte count: what is returned is the backend's n
+				// (or len(b) where the two were found equal)
+				if got := R.V(r.Results[0]); got != cs+"#0" {
+					c.Guard(rule, fn, []ssa.Instruction{s}, "count returned after backend error is the backend's", nil,
+						atom("n == len(b)", fmt.Sprintf("+%s#0 -len($%d) ==0", cs, bi)))
+				} else {
+					c.OK(rule, FnName(fn)+" | count returned after backend error is the backend's", c.P.InstrPos(s), "n", false)
+				}
 				if isNilConst(strip(r.Results[1])) {
+					// the handler's verdict decides; the extra `n == len(b)` test of the confirmed tree is
+					// redundant (with errh == nil both of its branches return (n, nil)) and is not required
+					_ = bi
 					c.Guard(rule, fn, []ssa.Instruction{s}, "return n,nil after backend error", nil,
-						errBranchOnly(atom("n == len(b)", fmt.Sprintf("+%s#0 -len($%d) ==0", cs, bi))),
 						errBranchOnly(atom("handleErrorNoLock(err) == nil", fmt.Sprintf("+%shandleErrorNoLock($0,%s#1) -nil ==0", fCtl, cs))))
 				} else {
 					// `return n, errh`: fine, errh decides; n is what the backend said
@@ -358,7 +368,7 @@ func ruleC02Decode(c *Ctx) {
 				atom("n != -1", fmt.Sprintf("+%s#0 +1 !=0", cs)))
 		}
 	}
-	c.Floor(rule, 4)
+	c.Floor(rule, 3)
 }
 
 func ruleDetach(rule string) ruleFn {
